@@ -85,3 +85,34 @@ fn c08_loaded_engine_answers_like_the_original() {
         }
     }
 }
+
+/// OBL C08.witness.roundtrip_generated_lists
+#[test]
+fn c08_generated_lists_answer_alike_after_a_load() {
+    // the same comparison over generated lists: random sub-lists of the pool above, in random order (quick: 40 lists; thorough: 600)
+    let pool = rules();
+    let mut seed = 555u64;
+    let mut next = move |n: usize| { seed = seed.wrapping_mul(6364136223846793005).wrapping_add(1442695040888963407); ((seed >> 33) as usize) % n };
+    let lists = if std::env::var("VF_TIER").as_deref() == Ok("thorough") { 600 } else { 40 };
+    for _ in 0..lists {
+        let mut list: Vec<&str> = pool.iter().filter(|_| next(3) == 0).cloned().collect();
+        for i in (1..list.len()).rev() { list.swap(i, next(i + 1)); }
+        let optimize = next(2) == 0;
+        let tags: Vec<&str> = ["alpha", "beta"].into_iter().filter(|_| next(2) == 0).collect();
+        let mut e = Engine::from_rules_parametrised(&list, ParseOptions::default(), true, optimize);
+        e.use_resources(resources());
+        e.use_tags(&tags);
+        let bytes = e.serialize_raw().unwrap();
+        let mut l = Engine::new(optimize);
+        l.use_resources(resources());
+        l.use_tags(&tags);
+        l.deserialize(&bytes).unwrap();
+        let (a, b) = (observe(&e), observe(&l));
+        for (x, y) in a.iter().zip(b.iter()) { assert_eq!(x, y, "optimize={optimize} tags={tags:?} list={list:?}: the loaded engine answers differently"); }
+        // and the buffer is a fixpoint, and a second build gives the same bytes (C09)
+        assert!(l.serialize_raw().unwrap() == bytes, "optimize={optimize} list={list:?}: re-serializing the loaded engine changes the buffer");
+        let mut e2 = Engine::from_rules_parametrised(&list, ParseOptions::default(), true, optimize);
+        e2.use_tags(&tags);
+        assert!(e2.serialize_raw().unwrap() == bytes, "optimize={optimize} list={list:?}: a second build serializes differently");
+    }
+}
